@@ -645,6 +645,8 @@ def check_C09(tier):
     # pow / sqrt / date_trunc / EXTRACT(EPOCH) / regex_matches on extremes and wrong types
     engine_run(c, "cal-boundary", "CalBoundaryMenu", lines="LinesOne", maxlines=1, maxfiles=1, modes=("incr",), tdefs=("plain",),
                invs=["TypeOK", "IncrSelectRefinesSem"], props=())
+    # the same functions over two rows (state kept between rows or between statements of one process: a pattern that is no regular expression, evaluated again)
+    engine_run(c, "cal-rows", "CalMenu", lines="LinesCal", maxlines=2, maxfiles=1, modes=("incr",), tdefs=("plain",), invs=["TypeOK", "IncrSelectRefinesSem"], props=())
     engine_run(c, "cal-boundary-agg", "CalBoundaryAggMenu", lines="LinesPair", maxlines=2, maxfiles=1, modes=("batch", "incr"), tdefs=("plain",), invs=["TypeOK"], props=())
     # aggregates over groups whose argument is NULL everywhere, extremes in running sums, HAVING on empty aggregates
     engine_run(c, "agg-null", "AggMenu", lines="LinesAgg", maxlines=2, maxfiles=1, tdefs=("plain",), invs=["TypeOK", "BatchRefinesSem"], props=())
